@@ -52,10 +52,10 @@ PROPS = {
  ),
  "C04": dict(
     level="proof",
-    claim="Proof of shape law, source-index law and element law for tile (reps of equal and greater length), repeat along an axis (scalar repeats, incl. negative axis) and roll along an axis for EVERY shift magnitude and sign, ranks 1..3, every extent and index (compile-time and run-time axes); concatenate at index level: result shape (summed extent on the axis, failure exactly when another extent differs), and for every destination index which operand and which source index is read, run-time axis incl. negative; pad (shape = source + both widths; a coordinate maps to the source exactly outside the padding, view::pad reads the source element or the fill value); tril/triu (kept side exactly col-row <= k resp. >= k, identity index, 1-d source used as every row); eye (fill exactly on the k-th diagonal); expand (axis extent s+(s-1)*spacing; multiples of spacing+1 map to coordinate/(spacing+1), everything else is a fill position; run-time axis incl. negative); take along a run-time axis incl. negative (shape; source coordinate = listed entry, a negative entry counted from the end, inside the extent); diagonal for either sign of the offset (shape incl. diagonal length, both diagonal coordinates inside their extents, other coordinates in order); sliding_window (windowed axes shrink by w-1, window extents appended, source = position + offset; scalar window on a run-time axis incl. negative, and one window per axis); sibling side-consistency of paired locals in the anchor files (R-PAIR). The remaining operations of the property are not decided.",
+    claim="Proof of shape law, source-index law and element law for tile (reps of equal and greater length), repeat along an axis (scalar repeats, incl. negative axis) and roll along an axis for EVERY shift magnitude and sign, ranks 1..3, every extent and index (compile-time and run-time axes); concatenate at index level: result shape (summed extent on the axis, failure exactly when another extent differs), and for every destination index which operand and which source index is read, run-time axis incl. negative; pad (shape = source + both widths; a coordinate maps to the source exactly outside the padding, view::pad reads the source element or the fill value); tril/triu (kept side exactly col-row <= k resp. >= k, identity index, 1-d source used as every row); eye (fill exactly on the k-th diagonal); expand (axis extent s+(s-1)*spacing; multiples of spacing+1 map to coordinate/(spacing+1), everything else is a fill position; run-time axis incl. negative); take along a run-time axis incl. negative (shape; source coordinate = listed entry, a negative entry counted from the end, inside the extent); diagonal for either sign of the offset (shape incl. diagonal length, both diagonal coordinates inside their extents, other coordinates in order); sliding_window (windowed axes shrink by w-1, window extents appended, source = position + offset; scalar window on a run-time axis incl. negative, and one window per axis); sibling side-consistency of paired locals in the anchor files (R-PAIR). The remaining operations of the property are not decided. where(c,x,y) on three differently shaped constant-shape operands has the broadcast shape and selects x or y by the broadcast condition at every index.",
     note=E1_NOTE,
     technique=E1_TECH,
-    e1=[dict(tu="c04_select.cpp"), dict(tu="c03b_dynamic.cpp"), dict(tu="c04b_concat.cpp"), dict(tu="c15b_pad_matmul.cpp"), dict(tu="c02c_padview.cpp"), dict(tu="c04d_tri.cpp"), dict(tu="c04e_window.cpp"), dict(tu="c04c_take.cpp"), dict(tu="c04f_diagonal.cpp"), dict(tu="c04g_expand.cpp"), dict(tu="c04h_cumsum.cpp")],
+    e1=[dict(tu="c04_select.cpp"), dict(tu="c03b_dynamic.cpp"), dict(tu="c04b_concat.cpp"), dict(tu="c15b_pad_matmul.cpp"), dict(tu="c02c_padview.cpp"), dict(tu="c04d_tri.cpp"), dict(tu="c04e_window.cpp"), dict(tu="c04c_take.cpp"), dict(tu="c04f_diagonal.cpp"), dict(tu="c04g_expand.cpp"), dict(tu="c04h_cumsum.cpp"), dict(tu="c07c_where.cpp")],
     e2=[dict(rule="R-PAIR"), dict(rule="R-AXISNORM"), dict(rule="R-PARAMUSE"), dict(rule="R-CONSTBRANCH", anchors=True)],
     e3=[dict(group="C04")],
     rule=E1_RULE,
@@ -65,10 +65,10 @@ PROPS = {
  ),
  "C06": dict(
     level="proof",
-    claim="Proof that pairwise broadcast_shape is sound and complete w.r.t. NumPy's rule (value exactly when all right-aligned pairs are equal-or-1, then the per-axis maximum) for all rank pairs up to 3x3 (thorough 4x4) and every extent - hence order independent -, idempotent, None-neutral, that the variadic form is the left fold of the pairwise rule, and for view::broadcast_to (source ranks 1..3 into target ranks 1..3, every stretch pattern): value exactly when each source extent is 1 or equals the right-aligned target extent, shape = target, source index inside the source shape, stretched axes read source index 0 (kept axes: proved for rank-1 sources only); associativity is not decided.",
+    claim="Proof that pairwise broadcast_shape is sound and complete w.r.t. NumPy's rule (value exactly when all right-aligned pairs are equal-or-1, then the per-axis maximum) for all rank pairs up to 3x3 (thorough 4x4) and every extent - hence order independent -, idempotent, None-neutral, that the variadic form is the left fold of the pairwise rule, and for view::broadcast_to (source ranks 1..3 into target ranks 1..3, every stretch pattern): value exactly when each source extent is 1 or equals the right-aligned target extent, shape = target, source index inside the source shape, stretched axes read source index 0 (kept axes: proved for rank-1 sources only); associativity is not decided. (E1, constant small shapes with symbolic integer elements) view::broadcast_to and view::broadcast_arrays have the requested / common shape and read, at every index, the source element with stretched axes at 0 and prepended axes dropped; the binary ufunc view reads its operands the same way.",
     note=E1_NOTE,
     technique=E1_TECH,
-    e1=[dict(tu="c06_broadcast.cpp"), dict(tu="c06b_broadcast_to.cpp"), dict(tu="c07_outer_misc.cpp")],
+    e1=[dict(tu="c06_broadcast.cpp"), dict(tu="c06b_broadcast_to.cpp"), dict(tu="c07_outer_misc.cpp"), dict(tu="c06c_bcastview.cpp"), dict(tu="c07b_bcast.cpp")],
     e2=[dict(rule="R-PARAMUSE"), dict(rule="R-CONSTBRANCH", anchors=True), dict(rule="R-MAYBE.broadcast")],
     rule=E1_RULE,
     explanation="soundness and completeness are stated per first incompatible aligned axis (nested case split with the call inside each case).",
@@ -131,14 +131,14 @@ PROPS = {
 
 PROPS["C07"] = dict(
     level="other",
-    claim="For every ufunc and single-expression activation (74 names) the scalar operation in the op type equals the reviewed NumPy/PyTorch oracle table with operands in order; view::X/reduce_X/accumulate_X/outer_X construct the ufunc with the op of the same name and pass operands in order; ufunc/outer views apply op to the operands' elements in tuple order; (E1) the outer variant has shape shape(a)+shape(b) and splits result index (i,j) into the leading len(a) and trailing len(b) coordinates, for all values. The broadcast element law itself is not decided.",
+    claim="For every ufunc and single-expression activation (74 names) the scalar operation in the op type equals the reviewed NumPy/PyTorch oracle table with operands in order; view::X/reduce_X/accumulate_X/outer_X construct the ufunc with the op of the same name and pass operands in order; ufunc/outer views apply op to the operands' elements in tuple order; (E1) the outer variant has shape shape(a)+shape(b) and splits result index (i,j) into the leading len(a) and trailing len(b) coordinates, for all values. The broadcast element law itself is not decided. (E1, constant small shapes with symbolic integer elements) the element of a binary / comparison / unary / where view at every index equals the scalar operation on the operands' elements under NumPy broadcasting, operands in order, for 11 operand-shape combinations of ranks 1..3 (rank extension on either side, size-1 middle axes, (1,1), scalar operands on either side, a transposed view and a chained ufunc as operands); the outer variant's element and shape.",
     note=E2_NOTE,
     technique=E2_TECH,
-    e1=[dict(tu="c07_outer_misc.cpp")],
+    e1=[dict(tu="c07_outer_misc.cpp"), dict(tu="c07b_bcast.cpp"), dict(tu="c07c_where.cpp")],
     e2=[dict(rule="R-UFUNC")],
     rule="E2: one instance per op call operator (R-UFOP), per view-level ufunc entry point (R-UFWD), per ufunc-view application site (R-UFAPPLY); distinct by qualified function; non-trivial = the function has a body with a return",
     explanation="Name -> scalar operation and operand order are structural facts of the op types and forwarding functions; they are compared with an oracle table and with the function's own parameter list.",
-    not_decided="which operand element feeds index i under broadcasting (C06 element law), dtype promotion, values of math functions, multi-statement activations and clip (listed in the table as not covered)",
+    not_decided="which operand element feeds index i under broadcasting for RUN-TIME shapes (decided for the listed constant shapes only), dtype promotion, values of math functions, multi-statement activations and clip (listed in the table as not covered)",
     assumptions=["oracle table tools/ufunc_table.json reviewed against NumPy/PyTorch definitions"],
 )
 PROPS["C10"] = dict(
